@@ -43,6 +43,39 @@ type C10Case struct {
 	Free      bool      `json:"free,omitempty"`      // free-running (no scheduler)
 	NegIdx    bool      `json:"negidx,omitempty"`    // SetNegativeIndices / SetForwardIndices on the shared stack: Remove then takes relative
 	FwdIdx    bool      `json:"fwdidx,omitempty"`    // indices, whose meaning depends on the length at the moment the call takes effect
+	// a longer past (stacks without a capacity limit): the initial elements are pushed, then further values one at a time
+	// until Hist slots exist, then those are popped again; the initial length is (capacity of the slot slice after that
+	// growth)/Frac + D, i.e. right at a fraction of the backing array at which housekeeping (shrinking, re-allocation)
+	// would happen. Init is ignored when Hist>0.
+	Hist int `json:"hist,omitempty"`
+	Frac int `json:"frac,omitempty"`
+	D    int `json:"d,omitempty"`
+}
+
+var c10CapMemo = map[int]int{}
+
+// c10InitLen: the initial length of the shared stack (see Hist).
+func c10InitLen(c C10Case) int {
+	if c.Hist <= 0 || c.Cap != 0 || c.Frac <= 0 {
+		return c.Init
+	}
+	cp, ok := c10CapMemo[c.Hist]
+	if !ok {
+		probe := stackage.Basic()
+		for i := 0; i < c.Hist; i++ {
+			probe.Push(i)
+		}
+		_, cp = stackage.VerifBacking(probe)
+		c10CapMemo[c.Hist] = cp
+	}
+	n := cp/c.Frac + c.D
+	if n < 0 {
+		n = 0
+	}
+	if n > c.Hist {
+		n = c.Hist
+	}
+	return n
 }
 
 var errRejected = fmt.Errorf("rejected by the push policy")
@@ -203,13 +236,22 @@ func c10Linearizable(init *ListModel, progs [][]C10Op, results [][]c10Result, fi
 func c10Setup(c C10Case) (stackage.Stack, *ListModel, uintptr) {
 	s := newStackOfKind(c.Kind, c.Cap)
 	m := &ListModel{Cap: c.Cap, FIFO: c.FIFO}
-	if c.FIFO {
-		s.SetFIFO(true)
-	}
-	for i := 0; i < c.Init; i++ {
+	n0 := c10InitLen(c)
+	for i := 0; i < n0; i++ {
 		v := fmt.Sprintf("init%d", i)
 		s.Push(v)
 		m.Push(v)
+	}
+	if c.Hist > 0 && c.Cap == 0 {
+		for i := n0; i < c.Hist; i++ {
+			s.Push(fmt.Sprintf("past%d", i))
+		}
+		for i := n0; i < c.Hist; i++ {
+			s.Pop()
+		}
+	}
+	if c.FIFO {
+		s.SetFIFO(true)
 	}
 	if c.Policy != 0 {
 		pol := c.Policy
@@ -244,6 +286,8 @@ func slotIDs(s stackage.Stack) string {
 			b.WriteString("nil|")
 		}
 	}
+	arr, cp := stackage.VerifBacking(s)
+	fmt.Fprintf(&b, " backing: array=%#x cap=%d", arr, cp)
 	cfg := cfgOf(d)
 	fmt.Fprintf(&b, " cfg: ldr=%v opt=%v cap=%v ord=%v typ=%v err=%v mtx=%v id=%v", cfg["ldr"], cfg["opt"], cfg["cap"], cfg["ord"], cfg["typ"], cfg["err"], cfg["mtxptr"], cfg["id"])
 	return b.String()
@@ -476,7 +520,7 @@ func c10CheckHistory(c C10Case, results [][]c10Result, final []any, how string) 
 
 func c10SetupModelOnly(c C10Case) (struct{}, *ListModel, struct{}) {
 	m := &ListModel{Cap: c.Cap, FIFO: c.FIFO}
-	for i := 0; i < c.Init; i++ {
+	for i, n0 := 0, c10InitLen(c); i < n0; i++ {
 		m.Push(fmt.Sprintf("init%d", i))
 	}
 	return struct{}{}, m, struct{}{}
@@ -509,6 +553,9 @@ func runC10(c C10Case) (st Stats, err error) {
 	}
 	if c.Policy != 0 {
 		st.Class("push-policy-installed")
+	}
+	if c.Hist > 0 && c.Cap == 0 {
+		st.Class("grown-and-drained-past")
 	}
 	sens, chg := 0, 0
 	for _, p := range c.Progs {
@@ -674,6 +721,12 @@ func genC10(t *rapid.T, tier Tier) C10Case {
 			c.Cap = 1
 		}
 	}
+	if c.Cap == 0 && rapid.IntRange(0, 5).Draw(t, "hist?") == 0 {
+		// a longer past: grown to Hist slots and popped back to a fraction of the backing array
+		c.Hist = rapid.SampledFrom([]int{40, 70, 100, 130, 200, 300, 600}).Draw(t, "hist")
+		c.Frac = rapid.SampledFrom([]int{4, 4, 2, 8}).Draw(t, "frac")
+		c.D = rapid.IntRange(-1, 2).Draw(t, "d")
+	}
 	if rapid.IntRange(0, 3).Draw(t, "policy?") == 0 {
 		c.Policy = rapid.IntRange(1, 2).Draw(t, "policy")
 	}
@@ -802,7 +855,7 @@ func init() {
 		Run:      runC10,
 		Enum:     enumC10,
 		EnumNote: "all schedules (at lock-acquisition + operation-boundary granularity) of the enumerated 2-goroutine configurations; sub_evaluations counts executed schedules",
-		Floors:   map[string]float64{"switched-between-want-and-held": 0.2},
+		Floors:   map[string]float64{"switched-between-want-and-held": 0.2, "grown-and-drained-past": 0.03},
 		Assumptions: []string{"interleavings are explored at lock-acquisition granularity (as the property's quantifier asks); finer interleavings inside unlocked regions are reached only by the free-running part",
 			"free-running histories carry no real-time order, so only program order constrains the linearization", "race-detector results are sampled executions, never a proof of absence"},
 	})
